@@ -313,6 +313,7 @@ CHECKS["C01"] = dict(
     assumptions=["a missing reply is judged by a deadline (20 s; 150 s in the deep part, whose cases are bounded to a few seconds of backend work)"],
     parts=[
         dict(name="deep", test="TestDeepPipeline", kind="rapid", crash_is_violation=True, checks={"quick": 2, "thorough": 120}, shards=16, timeout={"quick": 900, "thorough": 3400}, shrinktime="60s", gomaxprocs=4),
+        dict(name="partial", test="TestPartial", kind="rapid", checks={"quick": 40, "thorough": 1500}, shards=16, timeout={"quick": 900, "thorough": 3400}, shrinktime="30s", crash_is_violation=True),
         dict(name="widepipe", test="TestWidePipe", kind="rapid", checks={"quick": 30, "thorough": 500}, shards=16, timeout={"quick": 900, "thorough": 3400}, shrinktime="30s", crash_is_violation=True),
         dict(name="pipeline", test="TestPipeline", kind="rapid", crash_is_violation=True, checks={"quick": 100, "thorough": 2500}, shards=16, timeout={"quick": 900, "thorough": 3400}, shrinktime="60s", gomaxprocs=4),
     ],
